@@ -44,7 +44,7 @@ const (
 const dispatchDeadline = 5 * time.Second
 
 type HMsg struct {
-	Beh  string `json:"beh"` // return | gosched | sleep | hold
+	Beh  string `json:"beh"` // return | gosched | sleep | hold | write (answers with WriteToWithRetry) | write-hold (answers with WriteToWithRetry and the transport stalls that write until released)
 	K    int    `json:"k,omitempty"`
 	Fill int    `json:"fill,omitempty"`
 	Ans  bool   `json:"ans,omitempty"` // the message is an answer (R bit clear): the client-side case
@@ -194,7 +194,7 @@ func (m *model) advance(ci int) {
 	m.held[ci] = 0
 	for m.done[ci] < m.delivered[ci] {
 		nx := m.done[ci] + 1
-		if m.c.Conns[ci].Msgs[nx-1].Beh == "hold" && !m.released[ci][nx] {
+		if b := m.c.Conns[ci].Msgs[nx-1].Beh; (b == "hold" || b == "write-hold") && !m.released[ci][nx] {
 			m.held[ci] = nx
 			return
 		}
@@ -369,6 +369,7 @@ func runCase(c Case) *ev.Failure {
 		gateOnce.Unlock()
 	}
 
+	stall := make([]*atomic.Value, n) // per TCP-like connection: the gate its transport's Write waits on, if any
 	mux := diam.NewServeMux()
 	handle := func(hc diam.Conn, m *diam.Message) {
 		ci, ok1 := u32(m, codeConn)
@@ -399,6 +400,17 @@ func runCase(c Case) *ev.Failure {
 			time.Sleep(time.Duration(b.K) * time.Microsecond)
 		case "hold":
 			<-gates[ci][seq-1]
+		case "write":
+			m.Answer(2001).WriteToWithRetry(hc, 2)
+		case "write-hold":
+			// the handler is stuck inside the library's own write path: the peer does not read
+			if stall[ci] == nil { // a multi-stream association: no scripted write path, hold in the handler
+				<-gates[ci][seq-1]
+				break
+			}
+			stall[ci].Store(gates[ci][seq-1])
+			m.Answer(2001).WriteToWithRetry(hc, 2)
+			stall[ci].Store((chan struct{})(nil))
 		}
 		lg.add(event{conn: ci, seq: seq, exit: true})
 	}
@@ -448,6 +460,16 @@ func runCase(c Case) *ev.Failure {
 		}
 		mc := memnet.NewConn()
 		mc.Remote = memnet.Addr{Net: "tcp", Str: fmt.Sprintf("10.9.8.%d:40000", i+1)}
+		st := &atomic.Value{}
+		st.Store((chan struct{})(nil))
+		stall[i] = st
+		mc.WriteHook = func(b []byte, accept func([]byte)) (int, error) {
+			if g, _ := st.Load().(chan struct{}); g != nil {
+				<-g
+			}
+			accept(b)
+			return len(b), nil
+		}
 		conns[i] = transport{Feed: func(b []byte) { mc.Feed(b) }, FeedEOF: mc.FeedEOF, WaitClosed: mc.WaitClosed, Close: func() { mc.Close() }}
 		if c.Conns[i].Dial {
 			if _, err := diam.NewConn(mc, "", handler, dict.Default); err != nil && fail == nil {
@@ -618,7 +640,7 @@ func genCase(t *rapid.T) Case {
 		}
 		nm := rapid.IntRange(1, 8).Draw(t, "msgs")
 		for j := 0; j < nm; j++ {
-			m := HMsg{Beh: rapid.SampledFrom([]string{"return", "hold", "gosched", "return", "hold", "sleep", "return", "gosched"}).Draw(t, "beh")}
+			m := HMsg{Beh: rapid.SampledFrom([]string{"return", "hold", "gosched", "return", "hold", "sleep", "return", "gosched", "write", "write-hold"}).Draw(t, "beh")}
 			switch m.Beh {
 			case "gosched":
 				m.K = rapid.IntRange(1, 20).Draw(t, "k")
@@ -686,7 +708,7 @@ func classify(c Case) (bool, []string) {
 			for j := 1; j < len(cc.Msgs); j++ {
 				if cc.Msgs[j].Stream != cc.Msgs[j-1].Stream {
 					add("sctp:consecutive-messages-on-different-streams")
-					if cc.Msgs[j-1].Beh == "hold" {
+					if cc.Msgs[j-1].Beh == "hold" || cc.Msgs[j-1].Beh == "write-hold" {
 						add("sctp:held-handler-then-message-on-another-stream")
 					}
 				}
@@ -708,7 +730,7 @@ func classify(c Case) (bool, []string) {
 		}
 		for _, m := range cc.Msgs {
 			add("beh:" + m.Beh)
-			if m.Beh == "hold" {
+			if m.Beh == "hold" || m.Beh == "write-hold" {
 				hold = true
 			}
 		}
@@ -788,7 +810,7 @@ func classify(c Case) (bool, []string) {
 
 var prop = ev.Register(&ev.Prop[Case]{
 	ID: "C08", Name: "dispatch",
-	Rule: "1..4 connections (accept path via Server.Serve on a memnet.Listener and dial path via diam.NewConn, or a multi-stream SCTP association over the in-memory backend whose messages arrive one chunk each on streams {0,1,2,7}; one shared ServeMux, or (1 in 5) a nil Handler = diam.DefaultServeMux), 1..8 numbered messages each, arriving in one segment / one byte at a time / arbitrary fragments, a scripted global interleaving of the fragments, handler behaviours {return, Gosched x k, sleep <= 1 ms, hold until released; optionally the first handler requests CloseNotify}, optionally the peer's EOF right behind its last byte, scripted release points and scripted registrations of further handlers on the mux from another goroutine; before every release each connection must have reached the point the model 'one handler at a time per connection, connections independent' predicts (bounded wait 5 s), and the enter/exit log of each connection must read enter 1, exit 1, enter 2, ...; non-trivial = >= 2 connections, >= 3 messages inside one segment on one of them and >= 1 held handler",
+	Rule: "1..4 connections (accept path via Server.Serve on a memnet.Listener and dial path via diam.NewConn, or a multi-stream SCTP association over the in-memory backend whose messages arrive one chunk each on streams {0,1,2,7}; one shared ServeMux, or (1 in 5) a nil Handler = diam.DefaultServeMux), 1..8 numbered messages each, arriving in one segment / one byte at a time / arbitrary fragments, a scripted global interleaving of the fragments, handler behaviours {return, Gosched x k, sleep <= 1 ms, hold until released, answer with WriteToWithRetry, answer with WriteToWithRetry while the transport stalls that write until released; optionally the first handler requests CloseNotify}, optionally the peer's EOF right behind its last byte, scripted release points and scripted registrations of further handlers on the mux from another goroutine; before every release each connection must have reached the point the model 'one handler at a time per connection, connections independent' predicts (bounded wait 5 s), and the enter/exit log of each connection must read enter 1, exit 1, enter 2, ...; non-trivial = >= 2 connections, >= 3 messages inside one segment on one of them and >= 1 held handler",
 	Gen:  genCase, Run: runCase, Classify: classify, Attempts: 5,
 })
 
